@@ -385,7 +385,7 @@ def main_check(spec, argv):
             # clang MemorySanitizer build (library and harness are plain C, everything is instrumented): every
             # fourth unit; reports values the library leaves uninitialised once a harness oracle looks at them,
             # and library branches on uninitialised data
-            if cfgname == "msan":
+            if cfgname == "msan" and os.environ.get("VERIF_MSAN_FULL") != "1":
                 extra = ["--light", "--slice", "4"]
             run_harness(exe, os.path.join(workdir, cfgname, "out"), tier, seed, res, nshards=args.jobs,
                         extra_args=extra, unit_timeout=spec.get("unit_timeout", 300), cfgname=cfgname)
@@ -707,8 +707,9 @@ def write_evidence(spec, tier, seed, res, per_config, wall, nviol, inconclusive=
     }
     os.makedirs(os.path.join(VERIF, "evidence"), exist_ok=True)
     evpath = os.path.join(VERIF, "evidence", "%s.json" % prop)
-    if os.path.realpath(REPO) != "/repo":
-        # a scratch tree (mutant self-test): never touch the committed evidence
+    if os.path.realpath(REPO) != "/repo" or os.environ.get("VERIF_DEV_RUN") == "1":
+        # a scratch tree (mutant self-test) or a development run in a configuration of its own: never touch the
+        # committed evidence
         evpath = os.path.join(spec["_workdir"], "evidence.json")
     with open(evpath, "w") as f:
         json.dump(ev, f, indent=1)
